@@ -88,13 +88,6 @@ def check_case(case, stats=None):
     cands.sort(key=lambda t: (t['created_at'], t['id']))
     T = cands[case.get('pick', 0) % len(cands)]
     tname = T['name']
-    if T.get('spec_with_items') and not case.get('allow_known') and \
-            _all_tasks(case['prog'])[tname].get('concurrency') is not None:
-        # known finding withitems-rerun-concurrency (re-created by a
-        # dedicated sub-check)
-        if stats:
-            stats.counters['excluded_known_shape_withitems_rerun_conc'] += 1
-        return []
     mode = case.get('mode', 'rerun')
     new = case.get('new', ['ok', 'a'])
     is_wi = T.get('spec_with_items')
